@@ -233,6 +233,10 @@ fn ctx_seed_models(t: Tier) -> Vec<(u8, &'static str, Vec<u8>)> {
 fn ctx_deser_seeds(t: Tier) -> Vec<Seed> {
     let mut v = Vec::new();
     for o in 0..3u8 {
+        // (order 1 and order 2 models have the same layout; rebuilding their 256-symbol trees costs ~1 ms per tree)
+        if t == Tier::Quick && o == 2 {
+            continue;
+        }
         for (sel, label, _) in ctx_seed_models(t) {
             if let Some(b) = ctx_model_bytes(o, sel as usize) {
                 v.push(seed(&format!("ctx(order{o},{label})"), b, 0));
